@@ -3,7 +3,7 @@ from typing import Any, Protocol
 import httpx
 
 from .auth.base import BaseAuth
-from .exceptions import ClientError, HTTPError, ServerError
+from .exceptions import ClientError, HTTPError, ServerError, response_text
 
 
 class HttpTransport(Protocol):
@@ -226,7 +226,7 @@ class HttpxTransport:
                 error_class = ClientError
             elif 500 <= response.status_code < 600:
                 error_class = ServerError
-            raise error_class(status_code=response.status_code, message=response.text, response=response)
+            raise error_class(status_code=response.status_code, message=response_text(response), response=response)
         return response
 
     async def close(self) -> None:
